@@ -1,8 +1,8 @@
 import Gmx.Model.Gt
 import Gmx.Driver.Util
--- ENGINE gt gtEngine stateful Gmx.Drv.GtDb []
+-- ENGINE gt GtE.gtEngine stateful Gmx.Drv.GtE.GtDb []
 /-! driver engine `gt` — C30 (GT state histories; `U = 10^20`) -/
-namespace Gmx.Drv
+namespace Gmx.Drv.GtE
 open Gmx Gmx.Gt
 
 abbrev GtDb := List (Nat × Gmx.Gt.World)
@@ -127,4 +127,4 @@ def gtEngine (st : List (Nat × World)) (args : List String) : List (Nat × Worl
     | _, _ => (st, "bad-op")
   | _ => (st, "bad-op")
 
-end Gmx.Drv
+end Gmx.Drv.GtE
